@@ -19,8 +19,8 @@ CHECKS = {
                 text="Every written item is unique, so one pass over the observed deliveries decides loss, duplication, wrong tag and per-priority order; simple variants: exactly-once of Handle arguments.",
                 note=V + "."),
     "C05": dict(cat="exploration", ref="5 (C05), 3 (rules 5, 8)",
-                technique="online invariant monitor under a saturation window: per-priority in-flight <= divider share after every receive, equality at checkpoints reached by bounded waiting on the fake clock; shares obtained from the configured divider itself",
-                text="Inputs prefilled so that they never run empty; the oracle is armed only while every input still holds H+cap(output)+1 undelivered items; release scripts of all shapes; Fair, Rate and custom sum-preserving dividers.",
+                technique="online invariant monitor under a saturation window: per-priority in-flight <= divider share after every receive (fake clock and real clock), equality at checkpoints reached by bounded waiting on the fake clock; shares obtained from the configured divider itself; saturation is established as a fact (prefilled buffers, or senders verified parked in their send), never assumed from writer speed",
+                text="Inputs prefilled so that they never run empty, or small buffers (capacity 1..3) kept non-empty by parked senders: re-parked at every quiescent point on the fake clock, one-shot senders verified parked (goroutine dump) before creation on the real clock; the oracle is armed only while that holds; release scripts of all shapes; v1: AddInput of the same channel and RemoveInput of a saturated input (the refill under the new shares is judged); Fair, Rate and custom sum-preserving dividers.",
                 note=V + "."),
     "C06": dict(cat="exploration", ref="5 (C06)",
                 technique="bounded-liveness monitor on the synctest fake clock (progress within 50us virtual, about 1000 scheduler rounds) plus a real-time watchdog that classifies busy loops from stack samples",
@@ -40,15 +40,15 @@ CHECKS = {
                 note=V + "; Handle honours its context."),
     "C17": dict(cat="exploration", ref="5 (C17)",
                 technique="online history checker over v1 AddInput/RemoveInput scripts: tags per registered channel, frozen taken-count of removed/replaced channels observed at quiescent points, exactly-once per channel, capacity and termination oracles; divider contract monitor",
-                text="Scripts of add / replace (also of closed and drained channels) / remove / re-add with fresh channel objects interleaved with traffic and releases; control calls run in their own goroutines, one at a time; a real-clock block races the control calls with H handler goroutines and live producers.",
+                text="Scripts of add / replace (also of closed and drained channels, also with the very same channel) / remove (also of unregistered priorities, of drained inputs, of the last input) / re-add with fresh channel objects interleaved with traffic and releases; control calls after GracefulStop was requested; a priority that has no share until another one is removed; control calls run in their own goroutines, one at a time; a real-clock block races the control calls with H handler goroutines and live producers.",
                 note=V + "; H is chosen non-fatal for every subset of registrable priorities."),
     "C19": dict(cat="exploration", ref="5 (C19)",
                 technique="goroutine census (runtime.Stack filtered by 'created by <library function>') at quiescent points after every way of terminating every discipline on the fake clock; process-wide census with grace period on the real clock",
-                text="State-based verdict without a deadline on the fake clock: after termination plus 1us virtual every leftover goroutine is blocked or sleeping forever. Ways covered: input closure, GracefulStop, Stop, cancel, Stop after GracefulStop, divider fault.",
+                text="State-based verdict without a deadline on the fake clock: after termination plus 1us virtual every leftover goroutine is blocked or sleeping forever. Ways covered: input closure, GracefulStop, Stop, cancel (also right after construction), Stop after GracefulStop, overlapping Stop calls (blocked goroutines at the instant each call returns), divider fault with and without a reader of Err(), a closure that comes while items are unreleased.",
                 note=V + "; runtime.Stack lists every goroutine with its creator."),
     "C20": dict(cat="exploration", ref="5 (C20), 2 (R)",
-                technique="Go race detector over real-clock stress runs of every discipline with real handler / producer / control goroutines (plus a small fake-clock block); reports counted and deduplicated by the driver; thorough tier repeats with GODEBUG=asynctimerchan=1",
-                text="Any 'WARNING: DATA RACE' block is a witness. What the detector cannot see: races on paths the workloads do not drive.",
+                technique="Go race detector over real-clock stress runs of every discipline with real handler / producer / control goroutines (plus a small fake-clock block), including families without any instrumentation of the harness's own (monitor mutexes and atomics are happens-before edges that can hide a race); reports counted and deduplicated by the driver; thorough tier repeats with GODEBUG=asynctimerchan=1",
+                text="Any 'WARNING: DATA RACE' block is a witness. Uninstrumented families: private PRNG per goroutine, bare divider, Handle touching only its argument and a plain per-item result slot that the caller reads right after a normal termination; the caller keeps writing to its Inputs map; Stop / cancel right after construction; two concurrent control goroutines; the pure helpers called concurrently with shared arguments. What the detector cannot see: races on paths the workloads do not drive.",
                 note="Go race detector of go1.26.8; the race build is kept to a few hundred synctest bubbles because the race runtime itself occasionally aborts after thousands of bubbles (driver re-runs a part on that signature)."),
     "C03": dict(cat="exploration", ref="5 (C03), 2 (V, R)",
                 technique="offline history checker (conservation/size oracle) over event logs recorded at the API boundary of the real join/unite disciplines, driven by generated producer/consumer scripts on the synctest fake clock and on the real clock",
